@@ -54,8 +54,9 @@ MANIFEST = dict(
          "exhaustively in the thorough tier) and on source texts, with an independent Python oracle on the implementation's output.",
     design="DESIGN.md section 5 C10",
     note="OPEN (kept as Definitions in Props/C10.v): C10_quote_eval_vm_stmt - evaluating (quote d) on the booted model machine "
-         "returns d (proved: the heap round trip it rests on; checked in-kernel on an example and by wire interface 8 on every "
-         "generated datum; missing: the trip through transform/compile/run); the three std float statements "
+         "returns d (proved: the heap round trip it rests on and the compilation of the quote form to maybe_put_cell + "
+         "MOV_IMMEDIATE; checked in-kernel on an example and by wire interface 8 on every generated datum; missing: "
+         "transform_expr on the booted machine, the instruction run, heap_inv of the booted heap); the three std float statements "
          "C10_std_roundtrip_stmt, C10_display_point_stmt, C10_no_inner_minus_stmt (= the OPEN statements of C16, hypotheses of "
          "C10_write_read / C10_float_atom; a datum without floats does not use them in substance). Known finding prefix-path-symbol (open, not small: parse_number accepts any token after a number "
          "prefix). Trusted: Coq kernel; hand-written model tied by sampling correspondence (exhaustive over scalar values in "
